@@ -57,7 +57,27 @@ func runC15(e *Env) {
 		}
 	}
 	r.Floor("E3.exec-dom(process-start sites)", len(starts), 1)
+	// the load step: seccomp.LoadFilter itself, or a helper of this package that reaches it; a helper must
+	// return nil only behind LoadFilter's success
+	isLoadFilter := func(c *ssa.Call) bool { return flow.CalleeIs(c, load.PkgRoot, "LoadFilter") }
 	loads := callsTo(mainFn, load.PkgRoot, "LoadFilter")
+	if len(loads) == 0 {
+		lf := p.Func(load.PkgRoot, "LoadFilter")
+		for _, c := range flow.Calls(mainFn) {
+			call, ok := c.(*ssa.Call)
+			if !ok {
+				continue
+			}
+			cal := flow.Callee(call)
+			if cal == nil || cal.Pkg == nil || cal.Pkg.Pkg.Path() != load.PkgSandbox || !reachesFn(cal, lf, map[*ssa.Function]bool{}) {
+				continue
+			}
+			loads = append(loads, call)
+			r.Check(establishes(cal, isLoadFilter, 0), "E3.exec-dom", "sandbox."+load.FuncName(cal)+"/nil-only-after-successful-load", p.Pos(call.Pos()),
+				"the helper returns nil only behind a successful seccomp.LoadFilter",
+				"the helper "+load.FuncName(cal)+" can return nil although seccomp.LoadFilter failed (e.g. a retry whose error is dropped): main sees success and starts the target without a filter")
+		}
+	}
 	var parses []*ssa.Call
 	for _, c := range flow.Calls(mainFn) {
 		if call, ok := c.(*ssa.Call); ok {
